@@ -72,6 +72,13 @@ def gen_request(r):
                         {"action": "compile", "code": {"": "x=1"}, "options": None},
                         {"action": "compile", "code": {"": "x=1"}, "options": {"compact": "yes"}},
                         {"action": ["compile"], "code": {"": "x=1"}},
+                        # text that JSON can carry but UTF-8 cannot: unpaired surrogates echoed back in the error / result
+                        {"action": "\ud83d"}, {"action": "x\udc00y"},
+                        {"action": "compile", "code": {"": "x=1"}, "options": {"opt\udc00": True}},
+                        {"action": "compile", "code": {"": "db.Setting = HASH('\ud800')\n"}},
+                        {"action": "compile", "code": {"": "x = '\udcff'\nfoo(\n"}},
+                        {"action": "compile", "code": {"": "é€\U0001F600 = 1\n"}},
+                        {"action": "é€\U0001F600"},
                         {"action": "COMPILE", "code": {"": "x=1"}}])
         return b64(obj), "wrong-shape"
     if k < 0.9:
